@@ -476,11 +476,9 @@ impl ZonedDateTime {
         let disambiguation = disambiguation.unwrap_or(Disambiguation::Compatible);
         let offset_option = offset_option.unwrap_or(OffsetDisambiguation::Reject);
 
-        let date = partial
-            .date
-            .calendar
-            .date_from_partial(&partial.date, overflow)?
-            .iso;
+        // A record that lacks a required date field is a TypeError, whatever else is wrong with it.
+        let calendar = partial.date.calendar.clone();
+        let date = PlainDate::from_partial(partial.date, Some(overflow))?.iso;
         let time = if !partial.time.is_empty() {
             Some(IsoTime::default().with(partial.time, overflow)?)
         } else {
@@ -508,7 +506,7 @@ impl ZonedDateTime {
 
         Ok(Self::new_unchecked(
             Instant::from(epoch_nanos),
-            partial.date.calendar.clone(),
+            calendar,
             timezone,
         ))
     }
